@@ -259,8 +259,8 @@ struct RegpHarness : Harness {
         std::vector<std::string> v;
         if (p == "C06") { for (int k = 0; k < 12; ++k) { v.push_back("verdict_read_" + std::to_string(k)); v.push_back("verdict_write_" + std::to_string(k)); }
             for (const char *s : {"read_of_64k_octets_or_more", "pipelined_3_or_more", "sequence_wrap", "word_size_mismatch", "response_ignored", "meta_ignored", "mem8", "mem16", "serial", "tcp", "zero_block_size", "request_from_real_client", "register_table_verdict_mapped", "reception_failure_inside_session", "block_recycled_with_stale_content", "reply_received_and_ignored_by_client", "read_at_or_near_capacity"}) v.push_back(s); }
-        else if (p == "C07") for (const char *s : {"frame_of_64k_octets_or_more", "damage_beyond_64k_words", "flip1", "flip2", "burst", "truncate", "extend", "header_word_flip", "class_header_encoding", "class_header_crc", "class_payload_size", "class_payload_crc", "raw_accept", "raw_tcp", "option_plcrc_without_hdcrc", "odd_payload_ws16", "payload_fault_answered_with_error_response", "classified_from_fallback_buffer"}) v.push_back(s);
-        else if (p == "C08") { for (const char *s : {"payload_of_64k_octets_or_more", "req_read8", "req_read16", "req_write8", "req_write16", "resp_ack_payload", "resp_ack_empty", "resp_meta", "payload_with_slip_control_octets", "varint_prefix_2_octets", "sequence_wrap", "roundtrip_accepted"}) v.push_back(s);
+        else if (p == "C07") for (const char *s : {"frame_of_64k_octets_or_more", "damage_beyond_64k_words", "idle_turn_after_a_frame", "flip1", "flip2", "burst", "truncate", "extend", "header_word_flip", "class_header_encoding", "class_header_crc", "class_payload_size", "class_payload_crc", "raw_accept", "raw_tcp", "option_plcrc_without_hdcrc", "odd_payload_ws16", "payload_fault_answered_with_error_response", "classified_from_fallback_buffer"}) v.push_back(s);
+        else if (p == "C08") { for (const char *s : {"payload_of_64k_octets_or_more", "channel_attached_again_mid_session", "req_read8", "req_read16", "req_write8", "req_write16", "resp_ack_payload", "resp_ack_empty", "resp_meta", "payload_with_slip_control_octets", "varint_prefix_2_octets", "sequence_wrap", "roundtrip_accepted"}) v.push_back(s);
             for (int k = 1; k < 12; ++k) v.push_back("resp_code_" + std::to_string(k)); }
         else for (const char *s : {"frame_of_64k_octets_or_more", "alloc_failure_with_parsable_header", "alloc_failure_without_parsable_header", "empty_frame", "short_frame", "frame_len_room_minus_1", "frame_len_room", "frame_len_room_plus_1", "rx_overflow", "read_at_limit_minus_1", "read_at_limit", "read_at_limit_plus_1", "tx_overflow", "channel_error_mid_frame", "odd_payload_ws16", "slab_allocator", "block_size_minimum", "served_after_fault", "illegal_slip_sequence_on_the_wire"}) v.push_back(s);
         return v;
@@ -342,6 +342,7 @@ struct RegpHarness : Harness {
         const bool bigblock = (prop == "C09" || prop == "C06") && r.chance(1, 150);   // rarely a block around / above 64 KiB (sizes and counts that do not fit 16 bits)
         if (bigblock) { static const int64_t BB[] = {65535, 65536, 65537, 65552, 70000, 131072, 131080, 196700}; block = (int64_t)sizeof(RPFrame) + BB[r.below(8)]; }
         p["block"] = (long long)block; if (r.chance(1, 3)) p["macro_init"] = 1;
+        if (prop == "C08") { static const int DIRT[] = {0, 0, 0xff, 0xa5, 0x01, 0x80}; p["dirt"] = DIRT[r.below(6)]; }
         if (r.chance(1, 4)) p["lend"] = (long long)(r.chance(1, 3) ? r.range(1, 6) : (r.chance(1, 2) ? r.range(7, 40) : r.range(41, 400)));   // the channel sources implement the getbuffer extension
         const size_t room = (size_t)block - sizeof(RPFrame);
         p["seq0"] = (long long)(r.chance(1, 3) ? 0xfff0 + r.below(16) : r.below(65536));
@@ -376,6 +377,7 @@ struct RegpHarness : Harness {
             // one plan in 40 carries a frame for the (expensive) corruption catalogue, the others feed the differential family
             bool cat = serial && r.chance(1, 40);
             int n = cat ? 1 : (int)r.range(3, 8);
+            if (!cat && r.chance(1, 3)) p["persist"] = 1;
             if (!cat && r.chance(1, 30)) {   // a frame of 64 KiB and more (payload regenerated from a seed), intact or with one bit damaged somewhere in the payload
                 static const int64_t W[] = {65536, 65535, 65537, 65544, 32768, 70000, 131072, 131073};
                 Json o = Json::obj(); o["k"] = "big"; o["type"] = r.chance(1, 2) ? T_WREQ : T_RRESP; o["ws16"] = r.chance(2, 3); o["units"] = (long long)W[r.below(8)];
@@ -409,6 +411,7 @@ struct RegpHarness : Harness {
                     }
                     o["raw"] = hexs(b);
                     if (r.chance(1, 6)) o["allocfail"] = 1;
+                    if (r.chance(1, 2)) o["idle"] = 1;
                 }
                 ops.push(o);
             }
@@ -416,7 +419,7 @@ struct RegpHarness : Harness {
             int n = (int)r.range(1, 8);
             for (int i = 0; i < n; ++i) {
                 Json o = Json::obj();
-                static const std::vector<std::string> E = {"req_read8", "req_read16", "req_write8", "req_write16", "ack", "ack", "err", "err", "err", "meta"};
+                static const std::vector<std::string> E = {"req_read8", "req_read16", "req_write8", "req_write16", "ack", "ack", "err", "err", "err", "meta", "rechannel"};
                 std::string e = r.pick(E); o["e"] = e;
                 o["addr"] = (long long)(r.chance(1, 4) ? 0xffffffffull - r.below(4) : (r.chance(1, 4) ? 0xc0dbc0dbull : r.below(0x10000)));
                 size_t maxn = t.thorough() && r.chance(1, 10) ? 9000 : (r.chance(1, 6) ? 140 : 12);
@@ -698,21 +701,41 @@ struct RegpHarness : Harness {
         Cfg cf = cfg_of(plan);
         const Json &ops = plan.get("ops");
         const Json &only = plan.get("only");
+        const bool persist = plan.geti("persist") != 0 && only.is_null();
+        Wire sc2s, ss2c; std::unique_ptr<Node> shared;
         for (size_t oi = 0; oi < ops.size(); ++oi) {
             const Json &o = ops.at(oi);
             if (!only.is_null() && (size_t)only.geti("op") != oi) continue;
             const std::string k = o.gets("k");
             const bool alloc_fails = o.geti("allocfail") != 0;   // the frame arrives while the allocator is exhausted: classified from the fallback buffer
             auto deliver = [&](const Bytes &raw, const Json &pin, const char *site, bool expect_detected) -> bool {
-                Wire c2s, s2c;
-                Node srv(c, &c2s, &s2c, cf.serial, cf.mt, cf.block, cf.slab, cf.so, cf.ko);
-                srv.reconfigure(cf.confhist);
+                // usually every frame meets a fresh instance; a "persist" plan runs the documented loop on one instance instead: one RPMaybeFrame for all
+                // turns, freed blocks handed out again with their content, and idle turns (nothing on the line) in between
+                Wire c2s_local, s2c_local;
+                std::unique_ptr<Node> fresh;
+                const bool use_shared = persist && !strcmp(site, "raw");
+                if (use_shared && !shared) { shared.reset(new Node(c, &sc2s, &ss2c, cf.serial, cf.mt, cf.block, cf.slab, cf.so, cf.ko)); shared->led.recycle = true; shared->reconfigure(cf.confhist); }
+                if (!use_shared) { fresh.reset(new Node(c, &c2s_local, &s2c_local, cf.serial, cf.mt, cf.block, cf.slab, cf.so, cf.ko)); fresh->reconfigure(cf.confhist); }
+                Node &srv = use_shared ? *shared : *fresh;
+                Wire &c2s = use_shared ? sc2s : c2s_local;
+                if (use_shared) { c2s.data.clear(); c2s.rpos = 0; }
+                { Json none = Json::arr(); srv.led.fail.load(none); }   // an allocation failure scripted for an earlier frame that never allocated does not carry over
                 if (alloc_fails) { Json one = Json::arr(); one.push(1); srv.led.fail.load(one); }
                 load_frag(srv.src, plan);
                 Bytes w = frame_on(cf.serial, raw); c2s.data = w;
-                c.set_pin(pin.str());
+                c.set_pin(use_shared ? "" : pin.str());
                 Frame f; Verdict v = classify(raw, f);
                 Served S = serve(srv, f.payload.size());
+                if (use_shared && o.geti("idle") && c.viol.empty()) {
+                    // the next turn of the loop finds the line idle: reception fails, and whatever the previous turn left behind must not be executed or answered
+                    Served I = serve(srv, 0);
+                    COUNT("probe.idle_turn_after_a_frame");
+                    if (I.recv_returned && I.rc_recv < 0) {
+                        if (I.be_calls) { c.fail(std::string("executed.idle"), "after %s frame %s the line was idle, regp_recv returned %d, and the following regp_process caused %zu memory access(es)", verdict_name(v), hex_short(raw).c_str(), I.rc_recv, I.be_calls); return false; }
+                        if (!I.replies.empty() || !I.reply_wire.empty()) { c.fail(std::string("reply.idle"), "a reply was sent although nothing had been received"); return false; }
+                        if (I.unknown_free || I.live_after) { c.fail(std::string("ledger.idle"), "idle turn: %zu block(s) held, %llu unknown frees", I.live_after, (unsigned long long)I.unknown_free); return false; }
+                    }
+                }
                 size_t nv = c.viol.size();
                 Ctxt x; x.cf = &cf; x.alloc_failed = alloc_fails && !raw.empty();
                 if (x.alloc_failed) COUNT("probe.classified_from_fallback_buffer");
@@ -721,7 +744,7 @@ struct RegpHarness : Harness {
                     // CRC mathematics does not cover this corruption: recorded, enumeration continues (the receiver agreed with the reference)
                     c.fail(std::string("undetected.") + site + (pin.geti("crc") ? ".touches_checksum_word" : ".data_only"), "a catalogue corruption passes every check of the protocol document: %s (the independent reference accepts it too)", hex_short(raw).c_str());
                 }
-                for (size_t i = nv; i < c.viol.size(); ++i) c.viol[i].pin = pin;
+                if (!use_shared) for (size_t i = nv; i < c.viol.size(); ++i) c.viol[i].pin = pin;   // a frame that met a used instance cannot be replayed alone
                 if (ok) switch (v) { case V_HEADERENC: COUNT("probe.class_header_encoding"); break; case V_HEADERCRC: COUNT("probe.class_header_crc"); break; case V_PAYLOADSIZE: COUNT("probe.class_payload_size"); if (f.is_request()) COUNT("probe.payload_fault_answered_with_error_response"); break; case V_PAYLOADCRC: COUNT("probe.class_payload_crc"); if (f.is_request()) COUNT("probe.payload_fault_answered_with_error_response"); break; default: COUNT("probe.raw_accept"); }
                 return ok;
             };
@@ -816,11 +839,14 @@ struct RegpHarness : Harness {
                 char b[700]; va_list ap; va_start(ap, fmt); vsnprintf(b, sizeof b, fmt, ap); va_end(ap);
                 c.fail(rule + "." + e, "emit#%zu %s (%s, mem%d): %s", oi, e.c_str(), cf.serial ? "serial" : "tcp", cf.mt, b);
             };
+            if (e == "rechannel") {   // the channel (and memory, allocator) is attached again in the middle of the session: the session itself goes on
+                A.reconfigure((unsigned)(o.geti("n") & 15)); COUNT("probe.channel_attached_again_mid_session"); c.ev(EV_API, 21, (uint64_t)o.geti("n"), 0); continue;
+            }
             uint32_t addr = (uint32_t)o.geti("addr"); int64_t n64 = o.geti("n"); if (n64 < 0) n64 = 0;
             Bytes pl = unhex(o.gets("pl")); if (pl.size() > 30000) pl.resize(30000);
             if (o.has("bigpl") && block >= 300000) { int64_t bn = o.get("bigpl").ati(0, 65536); if (bn < 0) bn = 0; if (bn > 200000) bn = 200000; pl = seeded_payload((uint64_t)o.get("bigpl").ati(1, 0), (size_t)bn); if (pl.size() >= 65536) COUNT("probe.payload_of_64k_octets_or_more"); }
             Frame want; want.addr = addr; want.options = cf.serial ? OPT_HDCRC : 0;
-            RPFrame rf; memset(&rf, 0, sizeof rf);
+            RPFrame rf; memset(&rf, (int)(plan.geti("dirt") & 0xff), sizeof rf);   // the request object a response is made for: only its type, sequence number and address mean anything here
             rf.header.type = (RPFrameType)(o.geti("ftype") == T_WREQ ? T_WREQ : T_RREQ); rf.header.sequence = (uint16_t)o.geti("fseq"); rf.header.address = addr;
             size_t before = a2b.data.size();
             int rc = 0; bool fin = true;
